@@ -348,11 +348,18 @@ func quadsStr(axes [3][]float64, tris []*model3d.Triangle) (string, string) {
 }
 
 func runDc(c *hlib.Ctx) {
-	batch(c, "dc", c.N, func() {
+	batch(c, "dc", c.N, func() { dcCase(c, false) })
+	// small lattices, a round body with zero-thickness features at lattice positions, Repair on:
+	// many singular edges whose ends are clipped to the cube margin
+	batch(c, "dcz", 3*c.N, func() { dcCase(c, true) })
+}
+
+func dcCase(c *hlib.Ctx, focus bool) {
+	{
 		var t *csg
 		var mn, mx model3d.Coord3D
 		var delta float64
-		if c.Rng.Intn(3) != 0 {
+		if !focus && c.Rng.Intn(3) != 0 {
 			nn := [3]int{1 + c.Rng.Intn(4), 1 + c.Rng.Intn(4), 1 + c.Rng.Intn(6)}
 			delta = []float64{1, 0.5, 2}[c.Rng.Intn(3)]
 			o := [3]float64{dy(c, -3, 3, 2), dy(c, -3, 3, 2), dy(c, -3, 3, 2)}
@@ -365,17 +372,54 @@ func runDc(c *hlib.Ctx) {
 			c.Stat("c02.dc.lattice_solid", 1)
 		} else {
 			span := float64(1 + c.Rng.Intn(2))
+			if focus {
+				span = 1
+			}
 			t = &csg{kind: "and", a: &csg{kind: "box", p: []float64{0, 0, 0, span, span, span}}, b: randCSG(c, span, 2, true, false)}
 			mn, mx = model3d.XYZ(0, 0, 0), model3d.XYZ(span, span, span)
 			delta = []float64{0.5, 0.25, 0.375}[c.Rng.Intn(3)]
 			c.Stat("c02.dc.csg", 1)
 		}
-		s := &solid3{t, mn, mx}
 		noJitter := c.Rng.Intn(2) == 0
 		repair := c.Rng.Intn(4) == 0
 		gos := []int{0, 1, 3}[c.Rng.Intn(3)]
 		buf := []int{0, 1, 60, 150}[c.Rng.Intn(4)]
 		margin := []float64{0, 0, 0.1, 0.25, 0.5}[c.Rng.Intn(5)]
+		if t.kind == "and" && (focus || c.Rng.Intn(3) == 0) {
+			// zero-thickness features (plates, segments, points) through lattice points next to a body:
+			// the QEF vertices are clipped into the corners of their cells and the mesh has singular
+			// edges and vertices - the situation Repair exists for
+			span := mx.X
+			body := t.b
+			if focus || c.Rng.Intn(2) == 0 {
+				delta = []float64{0.5, 0.5, 0.25}[c.Rng.Intn(3)]
+				if c.Rng.Intn(3) != 0 {
+					body = &csg{kind: "ball", p: []float64{span / 2, span / 2, span / 2, span / 2}}
+				}
+			}
+			for n := 1 + c.Rng.Intn(3); n > 0; n-- {
+				var p [6]float64
+				thin := c.Rng.Intn(3)
+				for i := 0; i < 3; i++ {
+					p[i] = dy(c, 0, span, 1)
+					p[i+3] = p[i]
+					if i != thin && c.Rng.Intn(3) == 0 {
+						p[i+3] = p[i] + dy(c, 0, span-p[i], 1)
+					}
+				}
+				body = &csg{kind: "or", a: body, b: &csg{kind: "box", p: p[:]}}
+			}
+			t = &csg{kind: "and", a: t.a, b: body}
+			repair = c.Rng.Intn(4) != 0
+			if c.Rng.Intn(3) != 0 {
+				noJitter, margin = true, 0
+			}
+			if focus {
+				repair = true
+			}
+			c.Stat("c02.dc.zero_thickness_feature", 1)
+		}
+		s := &solid3{t, mn, mx}
 		mode := model3d.DualContouringTriangleMode(c.Rng.Intn(3))
 		wantInterior := c.Rng.Intn(2) == 0
 		xs, ys, zs, bufRows := model3d.VerifDcLayout(mn, mx, delta, noJitter, buf)
@@ -393,8 +437,9 @@ func runDc(c *hlib.Ctx) {
 		if wantInterior {
 			wi = 1
 		}
-		op := fmt.Sprintf("c02 %s %d %d %d %s %d nojitter=%v,gos=%d,buf=%d,margin=%v,mode=%d,delta=%v", kind,
-			len(xs), len(ys), len(zs), bitStr(bs), wi, noJitter, gos, buf, margin, mode, delta)
+		// tokens after the option string are replay information (the driver reads only the lattice and labels)
+		op := fmt.Sprintf("c02 %s %d %d %d %s %d nojitter=%v,gos=%d,buf=%d,margin=%v,mode=%d,delta=%v | min %s max %s solid %s", kind,
+			len(xs), len(ys), len(zs), bitStr(bs), wi, noJitter, gos, buf, margin, mode, delta, rat3(mn), rat3(mx), t)
 		announce(op)
 		c.Emit(op, withTimeout(func() string {
 			d := &model3d.DualContouring{S: model3d.SolidSurfaceEstimator{Solid: s}, Delta: delta, NoJitter: noJitter,
@@ -458,7 +503,7 @@ func runDc(c *hlib.Ctx) {
 			}
 			return fmt.Sprintf("quads=%s incell=%s cross=%s interior=%s", q, incell, crossStr(crossings(axes, tris)), interior)
 		}))
-	})
+	}
 }
 
 var _ = hlib.Hex
